@@ -101,7 +101,7 @@ def main():
             # every file with a regression is run again in ONE process, in the suite's own order, and judged by that run
             res["xdist_regressions_rerun"] = list(reg)
             files = sorted({"tests/" + "/".join(x.split("::")[0].split(".")[1:]) + ".py" for x in reg})
-            if "tests/test_scripts.py" in files and "tests/test_cli.py" not in files:
+            if ("tests/test_scripts.py" in files or "tests/test_examples.py" in files) and "tests/test_cli.py" not in files:  # both pass only after tests/test_cli.py (checked on the clean tree)
                 files = ["tests/test_cli.py"] + files
             junit2 = OUT / f"{tag}{pid}_{k}.rerun.junit.xml"
             sh([PY, "-m", "pytest", "-q", "-p", "no:cacheprovider", "--timeout=900", "--continue-on-collection-errors", f"--junitxml={junit2}"] + sorted(files), wt, env, timeout=3 * 3600)
